@@ -676,7 +676,10 @@ fn do_op(
         "fnew" => {
             let kind = step["kind"].as_str().unwrap_or("fut");
             let span = if kind == "eop" { None } else { take_span(rc, geti("h")) };
-            let ad = crate::adapters::Adapter::new(kind, span, actor.t);
+            let mut ad = crate::adapters::Adapter::new(kind, span, actor.t);
+            if !step["gnext"].is_null() {
+                ad.prepare(geti("gnext"));
+            }
             rc.futs.lock().unwrap().insert(geti("f"), ad);
         }
         "fpoll" => {
@@ -692,6 +695,9 @@ fn do_op(
                     step["tail"].as_bool().unwrap_or(false),
                 );
                 out.insert("ready".into(), json!(ready));
+                if !step["gnext"].is_null() {
+                    ad.prepare(geti("gnext"));
+                }
                 rc.futs.lock().unwrap().insert(geti("f"), ad);
             }
         }
